@@ -464,6 +464,9 @@ class HeapMixin:
 
     def symlist_elem(self, ref, r, pos):
         if r.arr is not None:
+            if r.mem is not None and r.memfn is None:
+                # an element of the list is a member of the list (instantiated for this position)
+                self.run.assume(z3.Implies(z3.And(pos >= 0, pos < r.length), z3.Select(r.mem, z3.Select(r.arr, pos))), persist=True)
             return self.wrap(r.elem, z3.Select(r.arr, pos))
         for (ap, av) in reversed(r.appended):
             if self.run.decide(E.simp(pos == ap), "index of an appended element"):
